@@ -379,8 +379,12 @@ func c19StoreUnit(r *Run, site *c19Site, nextT, heldBytes string) {
 	g := gs[0]
 	m, recv := BoundMethod(CallArgs(g)[1])
 	rid, okR := c19TxID(r, recv)
-	r.Check("Update:read-in-tx", m == "(*database/sql.Tx).QueryRow" && okR && txID != nil && rid == txID, r.Where(g),
-		"the row the write is conditional on is read with "+m+" bound to the transaction setSTH writes through")
+	inTx := m == "(*database/sql.Tx).QueryRow" && okR && txID != nil && rid == txID
+	detail := "the row the write is conditional on is read with " + m + " bound to the transaction setSTH writes through"
+	if !inTx {
+		detail = "the row the write is conditional on is read with " + m + ", not through the transaction setSTH writes through: the comparison says nothing about the row at the time of the write — an update that commits in between is overwritten, the held STH can shrink or fork"
+	}
+	r.Check("Update:read-in-tx", inTx, r.Where(g), detail)
 	upArg(g, "Update:getLatestSTH.logID", 2, "p2")
 
 	// what the row is compared with
@@ -797,12 +801,16 @@ func c19StructOf(a *ssa.Alloc, env *c19Env, depth int) *c19Comp {
 		return &c19Comp{Kind: "bad", Term: "no uses"}
 	}
 	out := &c19Comp{Kind: "struct", Sub: map[string]*c19Comp{}}
-	var whole []*ssa.Store
+	var whole, zeroed, fieldSt []*ssa.Store
 	for _, ref := range *a.Referrers() {
 		switch x := ref.(type) {
 		case *ssa.Store:
 			if x.Addr != ssa.Value(a) {
 				return &c19Comp{Kind: "bad", Term: "the local's address is stored"}
+			}
+			if c, isC := x.Val.(*ssa.Const); isC && c.Value == nil {
+				zeroed = append(zeroed, x) // zeroed before its fields are assigned: a field not assigned is zero
+				continue
 			}
 			whole = append(whole, x)
 		case *ssa.FieldAddr:
@@ -820,6 +828,7 @@ func c19StructOf(a *ssa.Alloc, env *c19Env, depth int) *c19Comp {
 						return &c19Comp{Kind: "bad", Term: "field " + name + " is assigned more than once"}
 					}
 					out.Sub[name] = c19Resolve(y.Val, env, depth+1)
+					fieldSt = append(fieldSt, y)
 				case *ssa.UnOp, *ssa.DebugRef:
 				default:
 					return &c19Comp{Kind: "bad", Term: "field " + name + " is used by address"}
@@ -830,7 +839,14 @@ func c19StructOf(a *ssa.Alloc, env *c19Env, depth int) *c19Comp {
 			return &c19Comp{Kind: "bad", Term: "the local is used by address"}
 		}
 	}
-	if len(whole) == 1 && len(out.Sub) == 0 {
+	for _, z := range zeroed {
+		for _, f := range fieldSt {
+			if z.Block() != f.Block() || instrIndexOf(z) > instrIndexOf(f) {
+				return &c19Comp{Kind: "bad", Term: "the local is zeroed after (or apart from) the assignment of its fields"}
+			}
+		}
+	}
+	if len(whole) == 1 && len(out.Sub) == 0 && len(zeroed) == 0 {
 		return c19Resolve(whole[0].Val, env, depth+1)
 	}
 	if len(whole) > 0 {
@@ -1012,10 +1028,11 @@ func c19Load(addr ssa.Value, env *c19Env, depth int, val func() *c19Comp) *c19Co
 type c19Fact struct {
 	A, B    ssa.Value
 	Present *ssa.Lookup
+	Env     *c19Env // the frame the values are to be read in (calls of named helpers)
 }
 
 func c19FactKey(f c19Fact) string {
-	return fmt.Sprintf("%p|%p|%p", f.A, f.B, f.Present)
+	return fmt.Sprintf("%p|%p|%p|%p", f.A, f.B, f.Present, f.Env)
 }
 
 func c19Intersect(sets [][]c19Fact) []c19Fact {
@@ -1040,23 +1057,23 @@ func c19Intersect(sets [][]c19Fact) []c19Fact {
 }
 
 // c19TrueFacts: facts that hold whenever v is true.  Opaque values contribute nothing.
-func c19TrueFacts(v ssa.Value, depth int) []c19Fact {
+func c19TrueFacts(v ssa.Value, env *c19Env, depth int) []c19Fact {
 	if depth > 10 || v == nil {
 		return nil
 	}
 	switch x := v.(type) {
 	case *ssa.BinOp:
 		if x.Op == token.EQL {
-			return []c19Fact{{A: x.X, B: x.Y}}
+			return []c19Fact{{A: x.X, B: x.Y, Env: env}}
 		}
 	case *ssa.Extract:
 		if lk, ok := x.Tuple.(*ssa.Lookup); ok && lk.CommaOk && x.Index == 1 {
-			return []c19Fact{{Present: lk}}
+			return []c19Fact{{Present: lk, Env: env}}
 		}
 	case *ssa.Lookup:
 		if !x.CommaOk {
 			if _, isMap := x.X.Type().Underlying().(*types.Map); isMap {
-				return []c19Fact{{Present: x}}
+				return []c19Fact{{Present: x, Env: env}}
 			}
 		}
 	case *ssa.UnOp:
@@ -1073,7 +1090,7 @@ func c19TrueFacts(v ssa.Value, depth int) []c19Fact {
 					}
 				}
 				if last != nil {
-					return c19TrueFacts(last, depth+1)
+					return c19TrueFacts(last, env, depth+1)
 				}
 			}
 		}
@@ -1083,15 +1100,26 @@ func c19TrueFacts(v ssa.Value, depth int) []c19Fact {
 			if b, ok := isBoolConst(e); ok && !b {
 				continue
 			}
-			sets = append(sets, append(c19TrueFacts(e, depth+1), c19EdgeFacts(x.Block().Preds[i], x.Block(), depth+1)...))
+			sets = append(sets, append(c19TrueFacts(e, env, depth+1), c19EdgeFacts(x.Block().Preds[i], x.Block(), env, depth+1)...))
 		}
 		return c19Intersect(sets)
 	case *ssa.Call:
 		if f := x.Call.StaticCallee(); f != nil {
 			if FuncName(f) == "bytes.Equal" && len(x.Call.Args) == 2 {
-				return []c19Fact{{A: x.Call.Args[0], B: x.Call.Args[1]}}
+				return []c19Fact{{A: x.Call.Args[0], B: x.Call.Args[1], Env: env}}
 			}
-			if f.Parent() != nil && c19OnTheSpotCall(f) == x {
+			onSpot := f.Parent() != nil && c19OnTheSpotCall(f) == x
+			if onSpot || len(f.Blocks) > 0 && !x.Call.IsInvoke() && f.Signature.Results().Len() == 1 {
+				if !onSpot {
+					// a named helper: its parameters are the arguments of this call
+					ne := &c19Env{m: map[*ssa.Parameter]ssa.Value{}, up: env}
+					for i, p := range f.Params {
+						if i < len(x.Call.Args) {
+							ne.m[p] = x.Call.Args[i]
+						}
+					}
+					env = ne
+				}
 				var sets [][]c19Fact
 				for _, ret := range Returns(f) {
 					if ret.Block() != f.Blocks[0] && len(ret.Block().Preds) == 0 {
@@ -1104,7 +1132,7 @@ func c19TrueFacts(v ssa.Value, depth int) []c19Fact {
 					if b, ok := isBoolConst(rv[0]); ok && !b {
 						continue
 					}
-					sets = append(sets, append(c19TrueFacts(rv[0], depth+1), c19DomFacts(ret.Block(), depth+1)...))
+					sets = append(sets, append(c19TrueFacts(rv[0], env, depth+1), c19DomFacts(ret.Block(), env, depth+1)...))
 				}
 				return c19Intersect(sets)
 			}
@@ -1114,25 +1142,25 @@ func c19TrueFacts(v ssa.Value, depth int) []c19Fact {
 }
 
 // c19DomFacts: the facts established by the branch conditions whose true edge dominates b.
-func c19DomFacts(b *ssa.BasicBlock, depth int) []c19Fact {
+func c19DomFacts(b *ssa.BasicBlock, env *c19Env, depth int) []c19Fact {
 	var out []c19Fact
 	for d := b.Idom(); d != nil; d = d.Idom() {
 		if len(d.Instrs) == 0 {
 			continue
 		}
 		if ifi, ok := d.Instrs[len(d.Instrs)-1].(*ssa.If); ok && edgeDominates(d, 0, b) {
-			out = append(out, c19TrueFacts(ifi.Cond, depth+1)...)
+			out = append(out, c19TrueFacts(ifi.Cond, env, depth+1)...)
 		}
 	}
 	return out
 }
 
 // c19EdgeFacts: the facts that hold when control goes from pred to blk.
-func c19EdgeFacts(pred, blk *ssa.BasicBlock, depth int) []c19Fact {
-	out := c19DomFacts(pred, depth)
+func c19EdgeFacts(pred, blk *ssa.BasicBlock, env *c19Env, depth int) []c19Fact {
+	out := c19DomFacts(pred, env, depth)
 	if len(pred.Instrs) > 0 {
 		if ifi, ok := pred.Instrs[len(pred.Instrs)-1].(*ssa.If); ok && pred.Succs[0] == blk && pred.Succs[1] != blk {
-			out = append(out, c19TrueFacts(ifi.Cond, depth+1)...)
+			out = append(out, c19TrueFacts(ifi.Cond, env, depth+1)...)
 		}
 	}
 	return out
@@ -1262,24 +1290,29 @@ var c19VerifiedHeads []string
 
 // c19MemoUse is what the tests in front of a memo return of parse establish.
 type c19MemoUse struct {
-	Field   *types.Var            // the map field of the witness
-	Look    *ssa.Lookup           // the lookup
-	Entry   map[string]*c19Comp   // component of the entry ↦ what it was found equal to
+	Field   *types.Var          // the map field of the witness
+	Look    *ssa.Lookup         // the lookup
+	Entry   map[string]*c19Comp // component of the entry ↦ what it was found equal to
 	Present bool
 	Set     bool // the STH-derived struct is the key of a set (map to bool) — else the entry is the map's value
 	Log     *c19Comp
+	Env     *c19Env // the frame of the lookup
 }
 
-func c19MapField(v ssa.Value) (*types.Var, string) {
+func c19MapField(v ssa.Value, env *c19Env) (*types.Var, ssa.Value) {
 	ld, ok := v.(*ssa.UnOp)
 	if !ok || ld.Op != token.MUL {
-		return nil, ""
+		return nil, nil
 	}
 	fa, ok := ld.X.(*ssa.FieldAddr)
 	if !ok {
-		return nil, ""
+		return nil, nil
 	}
-	return fieldOf(fa), c19Up(gD.D(fa.X))
+	root, path, _, ok := c19ResolveAddr(fa.X, env, 0)
+	if !ok || path != "" {
+		return fieldOf(fa), nil
+	}
+	return fieldOf(fa), root
 }
 
 // c19Memo decides the memo clause on parse; succ are its nil-error returns, cell the STH it
@@ -1298,12 +1331,12 @@ func c19Memo(r *Run, fn *ssa.Function, succ []ssa.Instruction, cell *ssa.Alloc, 
 	}
 	var use *c19MemoUse
 	for _, ret := range memoRets {
-		facts := c19DomFacts(ret.Block(), 0)
+		facts := c19DomFacts(ret.Block(), nil, 0)
 		u := &c19MemoUse{Entry: map[string]*c19Comp{}}
 		okAll := true
-		note := func(lk *ssa.Lookup) {
+		note := func(lk *ssa.Lookup, env *c19Env) {
 			if u.Look == nil {
-				u.Look = lk
+				u.Look, u.Env = lk, env
 			} else if u.Look != lk {
 				okAll = false
 			}
@@ -1312,14 +1345,14 @@ func c19Memo(r *Run, fn *ssa.Function, succ []ssa.Instruction, cell *ssa.Alloc, 
 			if f.Present != nil {
 				continue
 			}
-			ca, cb := c19Resolve(f.A, nil, 0), c19Resolve(f.B, nil, 0)
+			ca, cb := c19Resolve(f.A, f.Env, 0), c19Resolve(f.B, f.Env, 0)
 			if cb.Kind == "entry" {
 				ca, cb = cb, ca
 			}
 			if ca.Kind != "entry" || cb.Kind == "entry" {
 				continue
 			}
-			note(ca.Look)
+			note(ca.Look, f.Env)
 			switch {
 			case ca.Path == "" && cb.Kind == "struct":
 				for k, c := range cb.Sub {
@@ -1335,8 +1368,8 @@ func c19Memo(r *Run, fn *ssa.Function, succ []ssa.Instruction, cell *ssa.Alloc, 
 			}
 			if u.Look == nil {
 				// a set: the key itself is the remembered value
-				if kc := c19Resolve(f.Present.Index, nil, 0); kc.Kind == "struct" {
-					u.Look, u.Set, u.Present = f.Present, true, true
+				if kc := c19Resolve(f.Present.Index, f.Env, 0); kc.Kind == "struct" {
+					u.Look, u.Env, u.Set, u.Present = f.Present, f.Env, true, true
 					for k, c := range kc.Sub {
 						u.Entry[k] = c
 					}
@@ -1349,14 +1382,14 @@ func c19Memo(r *Run, fn *ssa.Function, succ []ssa.Instruction, cell *ssa.Alloc, 
 			r.Fail("parse:verified-or-remembered", r.Where(ret), "a nil-error return of parse can execute although VerifySTHSignature refused (or was not called), and the tests in front of it do not establish that an entry of one memo map is present and equal to this signed tree head: the witness accepts a tree head whose log signature was not checked")
 			return
 		}
-		fv, base := c19MapField(u.Look.X)
-		if fv == nil || base != "p0" {
+		fv, base := c19MapField(u.Look.X, u.Env)
+		if bp, isPar := base.(*ssa.Parameter); fv == nil || !isPar || bp.Parent() != fn || paramIndex(bp) != 0 {
 			r.Fail("parse:verified-or-remembered", r.Where(ret), "undecided: the remembered entry is not looked up in a map field of the witness")
 			return
 		}
 		u.Field = fv
 		if !u.Set {
-			u.Log = c19Resolve(u.Look.Index, nil, 0)
+			u.Log = c19Resolve(u.Look.Index, u.Env, 0)
 		}
 		if use != nil && (use.Field != u.Field || use.Set != u.Set) {
 			r.Fail("parse:verified-or-remembered", r.Where(ret), "undecided: nil-error returns of parse behind different memo maps")
@@ -1426,7 +1459,7 @@ func c19Memo(r *Run, fn *ssa.Function, succ []ssa.Instruction, cell *ssa.Alloc, 
 			if !ok {
 				return
 			}
-			if fv, _ := c19MapField(mu.Map); fv != use.Field {
+			if fv, _ := c19MapField(mu.Map, nil); fv != use.Field {
 				return
 			}
 			nw++
